@@ -129,6 +129,12 @@ func (h *ConsistentHash) Remove(node any) {
 
 	for i := 0; i < h.replicas; i++ {
 		hash := h.hashFunc([]byte(nodeRepr + strconv.Itoa(i)))
+		// 只摘除本节点确实占据的位置：带权重的节点只占前若干个位置，其余位置上即使有键，
+		// 也属于标签恰好相同的其它节点（"node1"+"10" 与 "node11"+"0"），不能动。
+		if !h.ringHolds(hash, nodeRepr) {
+			continue
+		}
+
 		index := sort.Search(len(h.keys), func(i int) bool {
 			return h.keys[i] >= hash
 		})
@@ -152,6 +158,17 @@ func (h *ConsistentHash) removeNode(nodeRepr string) {
 func (h *ConsistentHash) containsNode(nodeRepr string) bool {
 	_, ok := h.nodes[nodeRepr]
 	return ok
+}
+
+// 环上位置 hash 处是否有节点 nodeRepr。
+func (h *ConsistentHash) ringHolds(hash uint64, nodeRepr string) bool {
+	for _, x := range h.ring[hash] {
+		if repr(x) == nodeRepr {
+			return true
+		}
+	}
+
+	return false
 }
 
 func (h *ConsistentHash) removeRingNode(hash uint64, nodeRepr string) {
